@@ -225,7 +225,8 @@ EmitTdh(l) ==
                cont == IF s = "c_TDH" THEN 1 ELSE 0
            IN AddWord(l, MkTdh(tt, internal, nd, cont, bc, OrbitOf(h)))
 
-EmitCdw(l) == g[l].open /\ g[l].n + 1 < MaxWords /\ g[l].fsm = "DATA" /\ ~g[l].dataSeen /\ ~g[l].cdwDone /\ AddWord(l, MkCdw(9, g[l].hbf))
+\* a calibration data word directly after the packet's first TDH - also the continuation TDH of a continuation page
+EmitCdw(l) == g[l].open /\ g[l].n + 1 < MaxWords /\ g[l].fsm \in {"DATA", "c_DATA"} /\ ~g[l].dataSeen /\ ~g[l].cdwDone /\ AddWord(l, MkCdw(9, g[l].hbf))
 EmitData(l) == g[l].open /\ g[l].n + 1 < MaxWords /\ g[l].fsm \in {"DATA", "c_DATA"} /\ \E id \in LaneIds : AddWord(l, MkData(id, 160 + (id % 32)))
 EmitTdt(l) == g[l].open /\ g[l].fsm \in {"DATA", "c_DATA"}
               /\ \E d \in {0, 1} : (d = 0 => g[l].page + 1 < MaxPages) /\ AddWord(l, MkTdt(d))
